@@ -169,6 +169,7 @@ class Driver:
         self.other = Tdf(path)
         self.pending = False      # allow_write() called on the current object and not yet used up
         self.turns = 0
+        self.held = {}      # real type -> (block object last handed to the library, its parameters)
         self.inside = False
         self.stuck = False
 
@@ -176,6 +177,33 @@ class Driver:
     def block_uid(self, blk):
         data = blocks.try_encode(blk)
         return self.world.uid_of(data) if data is not None else -1
+
+    def _maybe_reuse(self, rt, op, blk, data):
+        """In every second store of a type that was stored before in this history, the caller does not
+        build a new block: it takes the OBJECT it handed to the library last time, edits it in place -
+        samples overwritten, labels, dates and header fields assigned - until it holds the new
+        content, and stores that.  A block is a block however it came about.  (Only when the edit
+        provably arrives: same number of items, and the edited object encodes to the same bytes.)"""
+        from . import inplace
+        params = (op["k"], op["tag"], op["cd"], op["md"])
+        held = self.held.get(rt)
+        self.nstores = getattr(self, "nstores", 0) + 1
+        out = blk
+        if held is not None and self.nstores % 2 == 1:
+            obj, p0 = held
+            try:
+                twin = blocks.make_block(rt, *p0)
+                if inplace.edit_towards(obj, twin, blk) and blocks.encode(obj) == data:
+                    out = obj
+                    self.reused = getattr(self, "reused", 0) + 1
+                else:
+                    self.held.pop(rt, None)      # half-edited: not used again
+                    return blk
+            except Exception:  # noqa: BLE001
+                self.held.pop(rt, None)
+                return blk
+        self.held[rt] = (out, params)
+        return out
 
     def view(self):
         t = self.tdf
@@ -296,6 +324,7 @@ class Driver:
             else:
                 blk = blocks.make_block(rt, op["k"], op["tag"], op["cd"], op["md"])
                 data = blocks.encode(blk)
+                blk = self._maybe_reuse(rt, op, blk, data)
                 ev["u"] = self.world.register(data)
                 ev["sz"] = len(data)
                 # the format code the table entry must carry comes from the layout, not from the
@@ -482,6 +511,7 @@ def run_trace(path, world, types, decodable, schedule, meta=None):
     tr = dict(types=list(types), decodable=[bool(x) for x in decodable], init=init, steps=steps)
     if meta:
         tr["meta"] = meta
+        tr["meta"]["reused_objects"] = getattr(drv, "reused", 0)
         if setup_failed:
             tr["meta"]["setup_failed"] = setup_failed
     return tr
